@@ -86,6 +86,21 @@ def t_termination(T, tier):
                 ZR.oblige_fact(T, 'termination/repetition#%d(%s)/body_cannot_succeed_without_consuming' % (g.uid, body.name or body.kind), not nul, reason=why,
                                witness={'kind': 'raises'} if nul else None)
     ZR.oblige_fact(T, 'termination/cover.repetitions_found', n >= 8, kind='vacuity')
+    # token patterns: a backtracking matcher answers in time polynomial in the text only if no loop of the pattern can read the same text along two
+    # different paths (no exponential degree of ambiguity); otherwise an unterminated literal of n characters costs 2^n steps - "parsing terminates"
+    pats = {}
+    for rname, root in rd.roots.items():
+        for g in G.walk(root):
+            if g.kind == 'regex' and g.pattern not in pats:
+                pats[g.pattern] = g
+    for pat in sorted(pats):
+        try:
+            w_ = A.exponential_ambiguity(sre2nfa.body(pat))
+            why = '' if w_ is None else w_[1]
+        except Exception as e:
+            w_, why = ('?',), 'pattern outside the regex subset: %s' % e
+        ZR.oblige_fact(T, 'termination/pattern(%s)/no_loop_reads_the_same_text_along_two_paths(polynomial_backtracking)' % pat[:40], w_ is None, reason=why)
+    ZR.oblige_fact(T, 'termination/cover.token_patterns_found', len(pats) >= 10, kind='vacuity')
     # recursion: in the abstract semantics (nested value = one abstract letter) no accepted word starts with a nested reference
     for rname in ('hs_scalar_3_0', 'hs_grid_3_0', 'hs_scalar_2_0', 'hs_grid_2_0'):
         sem = comp.compile_root(rd.roots[rname])
